@@ -375,6 +375,7 @@ def execStmt (w : World τ) (a : ActId) (fs : List (Frame τ)) : Stmt τ → Wor
     let (w, e) := w.newExn (.user cls w.userRaises)
     { w with userRaises := w.userRaises + 1 }.raiseTo a fs e
   | .tryCatch body handlers => w.retTo a (.seq body :: .tryBlock handlers :: fs) .unit
+  | .tryFinally body cleanup => w.retTo a (.seq body :: .finallyBlock cleanup :: fs) .unit
   | .ret v =>
     let w := w.emit a "ret" [v]
     match fs with
@@ -574,6 +575,8 @@ def stepRet (w : World τ) (a : ActId) (f : Frame τ) (fs : List (Frame τ)) (v 
     | c :: rest => w.doCondAwait a (.scopeExitWait s rest :: fs) (w.task c).done
   | .scopeClose s todo reason volDone orig graceful => w.continueClose a fs s todo reason volDone orig graceful
   | .tryBlock _ => w.retTo a fs .unit
+  | .finallyBlock cleanup => (w.emit a "cleanup" [0]).retTo a (.seq cleanup :: fs) .unit
+  | .reraise e => w.raiseTo a fs e
   | .lockWait l cont => w.lockAcquired a fs l cont
   | .lockBody l user =>                                                -- locks.py Lock.__aexit__
     let w := if user then w.emit a "lexit" [l] else w
@@ -722,6 +725,8 @@ def stepRaise (w : World τ) (a : ActId) (f : Frame τ) (fs : List (Frame τ)) (
     match handlers.find? (fun h => h.1.any (fun p => patMatches p (w.exn e))) with
     | some h => (w.emit a "caught" (w.exnCode e)).retTo a (.seq h.2 :: fs) .unit
     | none => w.raiseTo a fs e
+  | .finallyBlock cleanup => (w.emit a "cleanup" (1 :: w.exnCode1 e)).retTo a (.seq cleanup :: .reraise e :: fs) .unit
+  | .reraise _ => w.raiseTo a fs e
   | .lockWait l _ =>                                                   -- locks.py:66-71
     let w := if (w.locks.getD l default).owner == some a then w.lockRelease l else w
     w.raiseTo a fs e
